@@ -47,9 +47,6 @@ theorem removal_after_all_checks :
 
 /-! ## 1. the model satisfies every clause, for all inputs -/
 
-/-- every plugin of the observed root answers -/
-def AllAns (R : List PluginObs) : Prop := R.all (·.version.isSome) = true
-
 theorem versionCheck_cases (ex : Option Text) (ow : Bool) (vn : Text) :
     (ow = true ∧ versionCheck ex ow vn = .ok ex) ∨
     (ow = false ∧ ex = none ∧ versionCheck ex ow vn = .error .other) ∨
@@ -73,12 +70,14 @@ macro "install_cases" R:ident op:ident c:ident : tactic => `(tactic| (
   unfold specStep $c
   cases hk : Op.kind $op with
   | uninstall => simp [isInstall, hk, mkStep]
+  | plant => simp [isInstall, hk, mkStep]
+  | rmexe => simp [isInstall, hk, mkStep]
   | install =>
     cases hn : specNew $op with
     | none => simp [isInstall, hk, mkStep, hn]
     | some nw =>
       simp only [ruleR]
-      cases hl : lookupR $R nw.name with
+      cases hl : existingR $R nw.name with
       | none => simp [isInstall, hk, mkStep, hn, hl]
       | some p =>
         obtain ⟨pn, pf, pv⟩ := p
@@ -88,20 +87,28 @@ macro "install_cases" R:ident op:ident c:ident : tactic => `(tactic| (
         all_goals (rw [ho] at h)
         all_goals simp [isInstall, hk, mkStep, h, hn, hl, ho, higher, relTo]))
 
-theorem spec_refusedNoop (R : List PluginObs) (op : Op) : cRefusedNoop (R, op, specStep R op) = true := by
-  unfold specStep cRefusedNoop
-  cases hk : op.kind with
+/-- the root of the observable-level step is `R`, `R` minus a name, or that plus one entry -/
+macro "step_shapes" R:ident op:ident c:ident : tactic => `(tactic| (
+  unfold specStep $c
+  cases hk : Op.kind $op with
   | uninstall =>
     simp only []
-    by_cases hv : validName op.name = true
-    · cases hl : lookupR R op.name <;> simp [hv, hl, mkStep]
-    · simp [hv, mkStep]
+    by_cases hv : validName (Op.name $op) = true
+    · cases hl : lookupR $R (Op.name $op) <;> simp [hv, hl, mkStep, isInstall, hk]
+    · simp [hv, mkStep, isInstall, hk]
+  | plant =>
+    simp only []
+    by_cases hv : validName (Op.name $op) = true <;> simp [hv, mkStep, isInstall, hk]
+  | rmexe => simp [mkStep, isInstall, hk]
   | install =>
-    cases hn : specNew op with
-    | none => simp [mkStep]
+    cases hn : specNew $op with
+    | none => simp [mkStep, isInstall, hk]
     | some nw =>
       simp only []
-      cases hr : ruleR (lookupR R nw.name) op.overwrite nw <;> simp [mkStep]
+      cases hr : ruleR (existingR $R nw.name) (Op.overwrite $op) nw <;> simp [mkStep, isInstall, hk]))
+
+theorem spec_refusedNoop (R : List PluginObs) (op : Op) : cRefusedNoop (R, op, specStep R op) = true := by
+  step_shapes R op cRefusedNoop
 
 theorem spec_installExact (R : List PluginObs) (op : Op) : cInstallExact (R, op, specStep R op) = true := by
   install_cases R op cInstallExact
@@ -114,62 +121,63 @@ theorem spec_installWhenAllowed (R : List PluginObs) (op : Op) :
   install_cases R op cInstallWhenAllowed
 
 theorem spec_listed (R : List PluginObs) (op : Op) : cListed (R, op, specStep R op) = true := by
-  unfold specStep cListed
-  cases hk : op.kind with
-  | uninstall =>
-    simp only []
-    by_cases hv : validName op.name = true
-    · cases hl : lookupR R op.name <;> simp [hv, hl, mkStep]
-    · simp [hv, mkStep]
-  | install =>
-    cases hn : specNew op with
-    | none => simp [mkStep]
-    | some nw =>
-      simp only []
-      cases hr : ruleR (lookupR R nw.name) op.overwrite nw <;> simp [mkStep]
+  step_shapes R op cListed
 
 theorem spec_uninstall (R : List PluginObs) (op : Op) : cUninstall (R, op, specStep R op) = true := by
-  unfold specStep cUninstall
-  cases hk : op.kind with
-  | install => simp [isInstall, hk]
-  | uninstall =>
-    simp only [isInstall, hk]
-    by_cases hv : validName op.name = true
-    · cases hl : lookupR R op.name <;> simp [hv, hl, mkStep]
-    · simp [hv, mkStep]
+  step_shapes R op cUninstall
 
-theorem allAns_specStep {R : List PluginObs} (h : AllAns R) (op : Op) : AllAns (specStep R op).root := by
-  have hdel : ∀ n, AllAns (delBy PluginObs.name n R) := by
-    intro n
-    unfold AllAns at h ⊢
-    rw [List.all_eq_true] at h ⊢
-    intro x hx; exact h x (List.mem_filter.1 hx).1
-  unfold specStep
+/-- where the entries of the root after a step come from -/
+theorem specStep_root_mem (R : List PluginObs) (op : Op) (p : PluginObs) (hp : p ∈ (specStep R op).root) :
+    p.version.isSome = true ∨ p ∈ R ∨ touches op p.name = true := by
+  unfold specStep at hp
   cases hk : op.kind with
-  | uninstall =>
-    simp only []
-    by_cases hv : validName op.name = true
-    · cases hl : lookupR R op.name <;> simp [hv, hl, mkStep, h, hdel]
-    · simp [hv, mkStep, h]
   | install =>
+    simp only [hk] at hp
     cases hn : specNew op with
-    | none => simp [mkStep, h]
+    | none => simp only [hn, mkStep] at hp; exact Or.inr (Or.inl hp)
     | some nw =>
-      simp only []
-      cases hr : ruleR (lookupR R nw.name) op.overwrite nw with
-      | error e => simp [mkStep, h]
+      simp only [hn] at hp
+      cases hr : ruleR (existingR R nw.name) op.overwrite nw with
+      | error e => simp only [hr, mkStep] at hp; exact Or.inr (Or.inl hp)
       | ok ex =>
-        simp only [mkStep]
-        have := hdel nw.name
-        unfold AllAns at this ⊢
-        rw [List.all_eq_true] at this ⊢
-        intro x hx
-        rcases mem_putBy PluginObs.name hx with rfl | hx
-        · rfl
-        · exact this x hx
+        simp only [hr, mkStep] at hp
+        rcases mem_putBy PluginObs.name hp with rfl | hp
+        · exact Or.inl rfl
+        · exact Or.inr (Or.inl (List.mem_filter.1 hp).1)
+  | uninstall =>
+    simp only [hk] at hp
+    by_cases hv : validName op.name = true
+    · cases hl : lookupR R op.name with
+      | none => simp [hv, hl, mkStep] at hp; exact Or.inr (Or.inl hp)
+      | some q =>
+        simp only [hv, hl, mkStep, Bool.not_true, Bool.false_eq_true, if_false, Option.isSome_some, if_true] at hp
+        exact Or.inr (Or.inl (List.mem_filter.1 hp).1)
+    · simp [hv, mkStep] at hp; exact Or.inr (Or.inl hp)
+  | plant =>
+    simp only [hk] at hp
+    by_cases hv : validName op.name = true
+    · simp only [hv, mkStep, Bool.not_true, Bool.false_eq_true, if_false] at hp
+      rcases mem_putBy PluginObs.name hp with rfl | hp
+      · exact Or.inr (Or.inr (by simp [touches, hk, pobs]))
+      · exact Or.inr (Or.inl (List.mem_filter.1 hp).1)
+    · simp [hv, mkStep] at hp; exact Or.inr (Or.inl hp)
+  | rmexe =>
+    simp only [hk, mkStep, List.mem_map] at hp
+    obtain ⟨q, hq, rfl⟩ := hp
+    unfold rmexeObs
+    by_cases hn : (q.name == op.name) = true
+    · have : q.name = op.name := by simpa using hn
+      exact Or.inr (Or.inr (by simp [touches, hk, hn, this]))
+    · simp only [hn]; exact Or.inr (Or.inl hq)
 
-theorem spec_answers {R : List PluginObs} (h : AllAns R) (op : Op) : cAnswers (R, op, specStep R op) = true :=
-  allAns_specStep h op
+theorem spec_answers (R : List PluginObs) (op : Op) : cAnswers (R, op, specStep R op) = true := by
+  unfold cAnswers
+  simp only [List.all_eq_true, Bool.or_eq_true]
+  intro p hp
+  rcases specStep_root_mem R op p hp with h | h | h
+  · exact Or.inl (Or.inl h)
+  · exact Or.inl (Or.inr (List.contains_iff_mem.2 h))
+  · exact Or.inr h
 
 theorem spec_refusalClass (R : List PluginObs) (op : Op) : cRefusalClass (R, op, specStep R op) = true := by
   unfold specStep cRefusalClass
@@ -179,12 +187,16 @@ theorem spec_refusalClass (R : List PluginObs) (op : Op) : cRefusalClass (R, op,
     by_cases hv : validName op.name = true
     · cases hl : lookupR R op.name <;> simp [hv, hl, mkStep]
     · simp [hv, mkStep]
+  | plant =>
+    simp only []
+    by_cases hv : validName op.name = true <;> simp [hv, mkStep]
+  | rmexe => simp [mkStep]
   | install =>
     cases hn : specNew op with
     | none => simp [isInstall, hk, mkStep, hn]
     | some nw =>
       simp only [ruleR]
-      cases hl : lookupR R nw.name with
+      cases hl : existingR R nw.name with
       | none => simp [isInstall, hk, mkStep, hn, hl]
       | some p =>
         obtain ⟨pn, pf, pv⟩ := p
@@ -201,15 +213,15 @@ theorem specRun_length : ∀ (ops : List Op) (R : List PluginObs), (specRun R op
 
 /-- a clause that every observable-level step satisfies holds along every run -/
 theorem triples_specRun (P : Triple → Bool)
-    (hP : ∀ R op, AllAns R → P (R, op, specStep R op) = true) :
-    ∀ (ops : List Op) (R : List PluginObs), AllAns R → (triples ops (specRun R ops) R).all P = true := by
+    (hP : ∀ R op, P (R, op, specStep R op) = true) :
+    ∀ (ops : List Op) (R : List PluginObs), (triples ops (specRun R ops) R).all P = true := by
   intro ops
   induction ops with
-  | nil => intro R _; rfl
+  | nil => intro R; rfl
   | cons op ops ih =>
-    intro R h
-    simp only [specRun, triples, List.all_cons, hP R op h, Bool.true_and]
-    exact ih _ (allAns_specStep h op)
+    intro R
+    simp only [specRun, triples, List.all_cons, hP R op, Bool.true_and]
+    exact ih _
 
 /-- `ComparePluginVersion` fails exactly when one of the two strings is not a version -/
 theorem compare_defined_iff (v w : Text) :
@@ -217,27 +229,25 @@ theorem compare_defined_iff (v w : Text) :
   unfold compareVersions isValid
   cases parseVersion v <;> cases parseVersion w <;> rfl
 
-theorem inv_nil : Inv [] := fun _ h => by cases h
-
-/-- **the model satisfies the property for every input** (any sequence of operations of any
-length over any sources, any pair of version strings; no well-formedness hypothesis) -/
+/-- **the model satisfies the property for every input** (any sequence of install / uninstall /
+plant / rmexe operations of any length over any sources, any pair of version strings; no
+well-formedness hypothesis, no invariant needed) -/
 theorem model_holds (i : Input) : Holds i (run i) = true := by
   unfold Holds clauses run
   by_cases hk : (i.kind == "semver") = true
   · simp [hk, Clauses.holds, compare_defined_iff]
   · simp only [hk, if_false, Bool.false_eq_true]
-    rw [runOps_eq_spec i.ops inv_nil]
-    have h0 : AllAns (observe []) := rfl
+    rw [runOps_eq_spec i.ops []]
     simp only [Clauses.holds, List.all_cons, List.all_nil, Bool.and_true, Bool.and_eq_true]
     refine ⟨by simp [specRun_length], ?_, ?_, ?_, ?_, ?_, ?_, ?_, ?_⟩
-    · exact triples_specRun _ (fun R op _ => spec_refusedNoop R op) _ _ h0
-    · exact triples_specRun _ (fun R op _ => spec_installExact R op) _ _ h0
-    · exact triples_specRun _ (fun R op _ => spec_replaceOnlyIf R op) _ _ h0
-    · exact triples_specRun _ (fun R op _ => spec_installWhenAllowed R op) _ _ h0
-    · exact triples_specRun _ (fun R op _ => spec_refusalClass R op) _ _ h0
-    · exact triples_specRun _ (fun R op _ => spec_listed R op) _ _ h0
-    · exact triples_specRun _ (fun R op h => spec_answers h op) _ _ h0
-    · exact triples_specRun _ (fun R op _ => spec_uninstall R op) _ _ h0
+    · exact triples_specRun _ spec_refusedNoop _ _
+    · exact triples_specRun _ spec_installExact _ _
+    · exact triples_specRun _ spec_replaceOnlyIf _ _
+    · exact triples_specRun _ spec_installWhenAllowed _ _
+    · exact triples_specRun _ spec_refusalClass _ _
+    · exact triples_specRun _ spec_listed _ _
+    · exact triples_specRun _ spec_answers _ _
+    · exact triples_specRun _ spec_uninstall _ _
 
 /-! ## 2. semantic-version precedence (semver.org item 11), declaratively -/
 
@@ -431,39 +441,49 @@ theorem refused_is_noop (st : State) (op : Op) (h : (step st op).1.err ≠ .ok) 
     by_cases hv : validName op.name = true
     · cases hf : findBy Plugin.name op.name st <;> simp [hv, hf] at h ⊢
     · simp [hv]
+  | plant => simp [hk] at h
+  | rmexe => simp [hk] at h
 
-theorem install_err_eq (st : State) (hi : Inv st) (op : Op) (hk : op.kind = .install) :
-    (install st op).1.err = (specStep (observe st) op).err := by
-  have := (step_eq_spec hi op).1
-  have h2 : (stepObs st op).err = (install st op).1.err := by simp [stepObs, step, hk]
-  rw [← h2, this]
+/-- with a usable source the outcome of Install is the outcome of the existence / version checks -/
+theorem install_err (st : State) (op : Op) (nw : New) (hn : specNew op = some nw) :
+    (install st op).1.err = (match versionRule st op.overwrite nw with | .error e => e | .ok _ => .ok) := by
+  unfold install
+  rw [locate_eq_spec]
+  have hn' : newOf op (specLocate op) = some nw := hn
+  simp only [hn']
+  cases versionRule st op.overwrite nw <;> rfl
 
-/-- **replace_iff**: an existing, answering plugin is replaced by a usable source of the same
-name iff overwrite is requested or the new version is strictly higher -/
-theorem replace_iff (st : State) (hi : Inv st) (op : Op) (hk : op.kind = .install) (nw : New)
-    (hn : specNew op = some nw) (p : Plugin) (hp : findBy Plugin.name nw.name st = some p)
-    (vo : Text) (ha : answer p = some vo) :
+/-- **replace_iff**: an existing, answering plugin (its executable is there and reports
+version `vo`) is replaced by a usable source of the same name iff overwrite is requested or
+the new version is strictly higher -/
+theorem replace_iff (st : State) (op : Op) (nw : New) (hn : specNew op = some nw)
+    (f : File) (hf : getExe st nw.name = some f) (vo : Text) (ha : metadata nw.name f = some vo) :
     (install st op).1.err = .ok ↔ (op.overwrite = true ∨ compareVersions nw.version vo = some .gt) := by
-  rw [install_err_eq st hi op hk]
-  unfold specStep
-  have hl : lookupR (observe st) nw.name = some (pobs p) := by rw [lookupR_observe, hp]; rfl
-  have hv : (pobs p).version = some vo := ha
-  simp only [hk, hn, ruleR, hl, hv]
+  rw [install_err st op nw hn]
+  simp only [versionRule, hf, ha]
   rcases versionCheck_cases (some vo) op.overwrite nw.version with
     ⟨ho, h⟩ | ⟨ho, hv', h⟩ | ⟨ho, vo', hv', ⟨h1, h⟩ | ⟨h1, h⟩ | ⟨h1, h⟩ | ⟨h1, h⟩⟩
   all_goals (try cases hv')
   all_goals (rw [ho] at h)
-  all_goals simp [h, ho, mkStep]
+  all_goals simp [h, ho]
   all_goals simp [h1]
 
-/-- a source that installs for the first time (no plugin of that name) always succeeds -/
-theorem fresh_install_succeeds (st : State) (hi : Inv st) (op : Op) (hk : op.kind = .install) (nw : New)
-    (hn : specNew op = some nw) (hp : findBy Plugin.name nw.name st = none) :
+/-- an existing plugin whose executable is there but does not answer (malfunctioning) is
+replaced iff overwrite is requested -/
+theorem malfunctioning_replaced_iff_overwrite (st : State) (op : Op) (nw : New) (hn : specNew op = some nw)
+    (f : File) (hf : getExe st nw.name = some f) (ha : metadata nw.name f = none) :
+    (install st op).1.err = .ok ↔ op.overwrite = true := by
+  rw [install_err st op nw hn]
+  simp only [versionRule, hf, ha]
+  cases op.overwrite <;> simp [versionCheck]
+
+/-- no plugin of that name, or only a stale directory without its executable (interrupted
+installation, deleted binary): a usable source installs, with or without overwrite -/
+theorem absent_or_stale_installs (st : State) (op : Op) (nw : New)
+    (hn : specNew op = some nw) (hp : getExe st nw.name = none) :
     (install st op).1.err = .ok := by
-  rw [install_err_eq st hi op hk]
-  unfold specStep
-  have hl : lookupR (observe st) nw.name = none := by rw [lookupR_observe, hp]; rfl
-  simp [hk, hn, ruleR, hl, mkStep]
+  rw [install_err st op nw hn]
+  simp [versionRule, hp]
 
 theorem versionCheck_err_ne_ok {ex : Option Text} {ow : Bool} {vn : Text} {e : Err}
     (h : versionCheck ex ow vn = .error e) : e ≠ .ok := by
@@ -656,13 +676,12 @@ theorem dir_equals_file_source (st : State) (ow : Bool) (base : Text) (es : List
     rw [this]
     cases versionRule st opF.overwrite nw' <;> simp [hver]
 
-/-! ### the invariant over arbitrary operation sequences -/
+/-! ### invariants over arbitrary operation sequences -/
 
 /-- a well-formed plugin root: one directory per name (sorted listing), every name a single
-path element, every directory a sorted set of files, and **every plugin answers** (can be
-fetched by its name and reports metadata) - nothing is ever left half-replaced -/
+path element, every directory a sorted set of files -/
 def WFState (st : State) : Prop :=
-  Sorted Plugin.name st ∧ Inv st ∧ ∀ p ∈ st, validName p.name = true ∧ Sorted File.name p.files
+  Sorted Plugin.name st ∧ ∀ p ∈ st, validName p.name = true ∧ Sorted File.name p.files
 
 def finalState (st : State) (ops : List Op) : State := ops.foldl (fun s op => (step s op).2) st
 
@@ -678,51 +697,77 @@ theorem sorted_copied (op : Op) (loc : Located) : Sorted File.name (copied op lo
     rw [ha, ha]; exact hab
   · simp [Sorted]
 
+/-- the state after a step: unchanged, minus one name, that plus one directory, or `rmexe` -/
+theorem step_state_cases (st : State) (op : Op) :
+    (step st op).2 = st ∨ (∃ n, (step st op).2 = delBy Plugin.name n st) ∨
+    (∃ nw, specNew op = some nw ∧ op.kind = .install ∧ (step st op).2 = replace st nw) ∨
+    (op.kind = .plant ∧ validName op.name = true ∧
+      (step st op).2 = putBy Plugin.name ⟨op.name, topFiles op.entries⟩ (delBy Plugin.name op.name st)) ∨
+    (op.kind = .rmexe ∧ (step st op).2 = rmexe st op.name) := by
+  unfold step
+  cases hk : op.kind with
+  | install =>
+    simp only [install, locate_eq_spec]
+    cases hn : newOf op (specLocate op) with
+    | none => exact Or.inl rfl
+    | some nw =>
+      simp only []
+      cases versionRule st op.overwrite nw with
+      | error e => exact Or.inl rfl
+      | ok ex => exact Or.inr (Or.inr (Or.inl ⟨nw, hn, trivial, rfl⟩))
+  | uninstall =>
+    simp only [uninstall]
+    by_cases hv : validName op.name = true
+    · cases hf : findBy Plugin.name op.name st
+      · simp [hv, hf]
+      · simp only [hv, hf, Bool.not_true, Bool.false_eq_true, if_false, Option.isSome_some, if_true]
+        exact Or.inr (Or.inl ⟨_, rfl⟩)
+    · simp [hv]
+  | plant =>
+    simp only [plant]
+    by_cases hv : validName op.name = true
+    · simp only [hv, Bool.not_true, Bool.false_eq_true, if_false]
+      refine Or.inr (Or.inr (Or.inr (Or.inl ?_))); simp
+    · simp [hv]
+  | rmexe => exact Or.inr (Or.inr (Or.inr (Or.inr ⟨rfl, rfl⟩)))
+
 theorem wf_step {st : State} (h : WFState st) (op : Op) : WFState (step st op).2 := by
-  obtain ⟨hs, hi, hp⟩ := h
-  refine ⟨?_, (step_eq_spec hi op).2.1, ?_⟩
-  · unfold step
-    cases hk : op.kind with
-    | install =>
-      simp only [install]
-      cases hn : newOf op (locate op) with
-      | none => exact hs
-      | some nw =>
-        simp only []
-        cases versionRule st op.overwrite nw with
-        | error e => exact hs
-        | ok ex => exact sorted_putBy Plugin.name _ (sorted_delBy Plugin.name _ hs)
-    | uninstall =>
-      simp only [uninstall]
-      by_cases hv : validName op.name = true
-      · cases hf : findBy Plugin.name op.name st
-        · simp [hv, hf]; exact hs
-        · simp [hv, hf]; exact sorted_delBy Plugin.name _ hs
-      · simp [hv]; exact hs
-  · unfold step
-    cases hk : op.kind with
-    | install =>
-      simp only [install]
-      cases hn : newOf op (locate op) with
-      | none => exact hp
-      | some nw =>
-        simp only []
-        cases versionRule st op.overwrite nw with
-        | error e => exact hp
-        | ok ex =>
-          intro p hmem
-          rcases mem_putBy Plugin.name hmem with rfl | hmem
-          · obtain ⟨loc, _, _, _, _, hfiles⟩ := newOf_some hn
-            exact ⟨newOf_valid hn, by simp only [hfiles]; exact sorted_copied op loc⟩
-          · exact hp p (List.mem_filter.1 hmem).1
-    | uninstall =>
-      simp only [uninstall]
-      by_cases hv : validName op.name = true
-      · cases hf : findBy Plugin.name op.name st
-        · simp [hv, hf]; exact hp
-        · simp only [hv, hf, Bool.not_true, Bool.false_eq_true, if_false, Option.isSome_some, if_true]
-          intro p hmem; exact hp p (List.mem_filter.1 hmem).1
-      · simp [hv]; exact hp
+  obtain ⟨hs, hp⟩ := h
+  have hdel : ∀ n, WFState (delBy Plugin.name n st) := fun n =>
+    ⟨sorted_delBy Plugin.name _ hs, fun p hm => hp p (List.mem_filter.1 hm).1⟩
+  rcases step_state_cases st op with h | ⟨n, h⟩ | ⟨nw, hn, _, h⟩ | ⟨_, hv, h⟩ | ⟨_, h⟩
+  · rw [h]; exact ⟨hs, hp⟩
+  · rw [h]; exact hdel n
+  · rw [h]
+    refine ⟨sorted_putBy Plugin.name _ (hdel nw.name).1, ?_⟩
+    intro p hmem
+    rcases mem_putBy Plugin.name hmem with rfl | hmem
+    · obtain ⟨loc, _, _, _, _, hfiles⟩ := newOf_some hn
+      exact ⟨newOf_valid hn, by simp only [hfiles]; exact sorted_copied op loc⟩
+    · exact (hdel nw.name).2 p hmem
+  · rw [h]
+    refine ⟨sorted_putBy Plugin.name _ (hdel op.name).1, ?_⟩
+    intro p hmem
+    rcases mem_putBy Plugin.name hmem with rfl | hmem
+    · exact ⟨hv, topFiles_sorted op.entries⟩
+    · exact (hdel op.name).2 p hmem
+  · rw [h]
+    unfold rmexe
+    constructor
+    · unfold Sorted
+      rw [List.pairwise_map]
+      refine List.Pairwise.imp ?_ hs
+      intro a b hab
+      have hn : ∀ q : Plugin, (if (q.name == op.name) = true then
+          { q with files := delBy File.name (binName op.name) q.files } else q).name = q.name := by
+        intro q; split <;> rfl
+      rw [hn, hn]; exact hab
+    · intro p hmem
+      obtain ⟨q, hq, rfl⟩ := List.mem_map.1 hmem
+      obtain ⟨h1, h2⟩ := hp q hq
+      split
+      · exact ⟨h1, sorted_delBy File.name _ h2⟩
+      · exact ⟨h1, h2⟩
 
 /-- **invariant over operation sequences** (induction on the sequence, any length) -/
 theorem wf_finalState : ∀ (ops : List Op) {st : State}, WFState st → WFState (finalState st ops) := by
@@ -732,11 +777,58 @@ theorem wf_finalState : ∀ (ops : List Op) {st : State}, WFState st → WFState
   | cons op ops ih => intro st h; exact ih (wf_step h op)
 
 theorem wf_from_empty (ops : List Op) : WFState (finalState [] ops) :=
-  wf_finalState ops ⟨List.Pairwise.nil, inv_nil, fun _ h => by cases h⟩
+  wf_finalState ops ⟨List.Pairwise.nil, fun _ h => by cases h⟩
 
-/-- hence after any history every installed plugin can be fetched and answers -/
-theorem never_half_replaced (ops : List Op) : ∀ p ∈ finalState [] ops, (answer p).isSome = true :=
-  (wf_from_empty ops).2.1
+/-- **no operation of the manager creates a directory that does not answer**: after a step,
+a directory either answers (fetchable by its name, reports metadata), or is exactly as it
+was before the step, or the step was the world planting / damaging that very directory -/
+theorem healthy_step (st : State) (op : Op) (p : Plugin) (hp : p ∈ (step st op).2) :
+    (answer p).isSome = true ∨ p ∈ st ∨ touches op p.name = true := by
+  rcases step_state_cases st op with h | ⟨n, h⟩ | ⟨nw, hn, _, h⟩ | ⟨hk, hv, h⟩ | ⟨hk, h⟩
+  · rw [h] at hp; exact Or.inr (Or.inl hp)
+  · rw [h] at hp; exact Or.inr (Or.inl (List.mem_filter.1 hp).1)
+  · rw [h] at hp
+    rcases mem_putBy Plugin.name hp with rfl | hp
+    · exact Or.inl (by rw [answer_new hn]; rfl)
+    · exact Or.inr (Or.inl (List.mem_filter.1 hp).1)
+  · rw [h] at hp
+    rcases mem_putBy Plugin.name hp with rfl | hp
+    · exact Or.inr (Or.inr (by simp [touches, hk]))
+    · exact Or.inr (Or.inl (List.mem_filter.1 hp).1)
+  · rw [h] at hp
+    obtain ⟨q, hq, rfl⟩ := List.mem_map.1 hp
+    by_cases hn : (q.name == op.name) = true
+    · have : q.name = op.name := by simpa using hn
+      exact Or.inr (Or.inr (by simp [touches, hk, hn, this]))
+    · simp only [hn]; exact Or.inr (Or.inl hq)
+
+/-- **never half-replaced, over whole histories**: after any sequence of operations, a
+directory that does not answer bears a name the world planted or damaged at some point -
+install / uninstall alone never leave one -/
+theorem never_half_replaced : ∀ (ops : List Op) (st : State) (p : Plugin), p ∈ finalState st ops →
+    (answer p).isSome = true ∨ p ∈ st ∨ ∃ op ∈ ops, touches op p.name = true := by
+  intro ops
+  induction ops with
+  | nil => intro st p hp; exact Or.inr (Or.inl hp)
+  | cons op ops ih =>
+    intro st p hp
+    rcases ih (step st op).2 p hp with h | h | ⟨o, ho, h⟩
+    · exact Or.inl h
+    · rcases healthy_step st op p h with h | h | h
+      · exact Or.inl h
+      · exact Or.inr (Or.inl h)
+      · exact Or.inr (Or.inr ⟨op, List.mem_cons_self, h⟩)
+    · exact Or.inr (Or.inr ⟨o, List.mem_cons_of_mem _ ho, h⟩)
+
+/-- with install / uninstall only, from the empty root, every directory answers -/
+theorem manager_only_histories_all_answer (ops : List Op)
+    (h : ∀ op ∈ ops, op.kind = .install ∨ op.kind = .uninstall) :
+    ∀ p ∈ finalState [] ops, (answer p).isSome = true := by
+  intro p hp
+  rcases never_half_replaced ops [] p hp with h1 | h1 | ⟨o, ho, h1⟩
+  · exact h1
+  · cases h1
+  · rcases h o ho with hk | hk <;> simp [touches, hk] at h1
 
 /-! ## 4. non-vacuity -/
 
@@ -760,12 +852,12 @@ example : (["0.0.0", "1.0.0-0a", "1.0.0--", "1.0.0-a.-.b+001", "1.2.3-rc.1+b.7"]
 
 private def sFoo (v : String) : Script := ⟨t "foo", t v, true⟩
 private def exeFoo (v : String) (cid : Nat) (exe : Bool := true) : Entry :=
-  ⟨.file, t "notation-foo", exe, cid, some (sFoo v), []⟩
-private def extra (n : String) (cid : Nat) : Entry := ⟨.file, t n, false, cid, none, []⟩
+  ⟨.file, t "notation-foo", exe, false, cid, some (sFoo v), []⟩
+private def extra (n : String) (cid : Nat) : Entry := ⟨.file, t n, false, false, cid, none, []⟩
 private def instFile (v : String) (cid : Nat) (ow : Bool := false) : Op :=
   ⟨.install, [], ow, false, t "notation-foo", [exeFoo v cid]⟩
 private def instDir (es : List Entry) (ow : Bool := false) : Op := ⟨.install, [], ow, true, t "pkg", es⟩
-private def seq (ops : List Op) : Input := ⟨"seq", ops, [], []⟩
+private def seq (ops : List Op) : Input := ⟨"seq", false, ops, [], []⟩
 private def errs (i : Input) : List Err := (run i).steps.map (·.err)
 private def versions (i : Input) : List (List (Option Text)) := (run i).steps.map (fun s => s.root.map (·.version))
 
@@ -776,22 +868,37 @@ example : errs (seq [instFile "1.0.0" 1, instFile "1.1.0-alpha" 2, instFile "1.1
     [.ok, .ok, .equalVersion, .downgrade, .ok, .other, .ok, .notExist] := by decide
 example : versions (seq [instFile "1.0.0" 1, instFile "1.1.0-alpha" 2, instFile "1.0.1" 4, instFile "1.0.1" 5 true]) =
     [[some (t "1.0.0")], [some (t "1.1.0-alpha")], [some (t "1.1.0-alpha")], [some (t "1.0.1")]] := by decide
+private def fo (n : String) (cid : Nat) (exe : Bool) (gox : Bool := false) : FileObs := ⟨t n, cid, exe, gox⟩
+private def nf (n : String) (exe : Bool) (cid : Nat) (sc : Option Script) : File := ⟨t n, exe, false, cid, sc⟩
+private def sub (n : String) (cid : Nat) (fs : List File) : Entry := ⟨.dir, t n, false, false, cid, none, fs⟩
+private def exeBar (exe : Bool) (cid : Nat) : Entry :=
+  ⟨.file, t "notation-bar", exe, false, cid, some ⟨t "bar", t "1.0.0", true⟩, []⟩
+
 -- a directory: exactly the regular top-level files, in listing order; the single
 -- non-executable candidate is made executable although `zlib.so` sorts after it
 example : (run (seq [instDir [extra "zlib.so" 3, exeFoo "2.0.0" 2 false, extra "LICENSE" 1,
-      ⟨.dir, t "sub", false, 4, none, [⟨t "notation-foo", true, 5, none⟩, ⟨t "deep.txt", false, 6, none⟩]⟩,
-      ⟨.symlink, t "link", true, 7, none, []⟩]])).steps.map (·.root) =
-    [[⟨t "foo", [⟨t "LICENSE", 1, false⟩, ⟨t "notation-foo", 2, true⟩, ⟨t "zlib.so", 3, false⟩], some (t "2.0.0")⟩]] := by
+      sub "sub" 4 [nf "notation-foo" true 5 none, nf "deep.txt" false 6 none],
+      ⟨.symlink, t "link", true, false, 7, none, []⟩]])).steps.map (·.root) =
+    [[⟨t "foo", [fo "LICENSE" 1 false, fo "notation-foo" 2 true, fo "zlib.so" 3 false], some (t "2.0.0")⟩]] := by
   decide
 -- two executable candidates, two non-executable candidates, no candidate: refused
-example : errs (seq [instDir [exeFoo "1.0.0" 1, ⟨.file, t "notation-bar", true, 2, some ⟨t "bar", t "1.0.0", true⟩, []⟩],
-    instDir [exeFoo "1.0.0" 1 false, ⟨.file, t "notation-bar", false, 2, some ⟨t "bar", t "1.0.0", true⟩, []⟩],
+example : errs (seq [instDir [exeFoo "1.0.0" 1, exeBar true 2], instDir [exeFoo "1.0.0" 1 false, exeBar false 2],
     instDir [extra "LICENSE" 1]]) = [.other, .other, .other] := by decide
+
+/-- "executable" is the OWNER execute bit: a `notation-foo` with mode 0654 (`exec = false`,
+`gox = true`) is refused as a single file, is made owner-executable as the only candidate of
+a directory, and does not count as a second executable next to a real one -/
+private def foo654 (v : String) (cid : Nat) : Entry := ⟨.file, t "notation-foo", false, true, cid, some (sFoo v), []⟩
+example : errs (seq [⟨.install, [], false, false, t "notation-foo", [foo654 "1.0.0" 1]⟩]) = [.other] := by decide
+example : (run (seq [instDir [foo654 "1.0.0" 1]])).steps.map (·.root) =
+    [[⟨t "foo", [fo "notation-foo" 1 true true], some (t "1.0.0")⟩]] := by decide
+example : (run (seq [instDir [exeBar true 1, foo654 "1.0.0" 2]])).steps.map (·.root) =
+    [[⟨t "bar", [fo "notation-bar" 1 true, fo "notation-foo" 2 false true], some (t "1.0.0")⟩]] := by decide
 
 /-- the witness of the defect repaired in ee0c8a6: the only candidate sits in a sub-directory
 named like the source directory -/
 private def halfReplace : Input :=
-  seq [instFile "1.0.0" 1, instDir [extra "LICENSE" 2, ⟨.dir, t "pkg", false, 3, none, [⟨t "notation-foo", true, 4, some (sFoo "2.0.0")⟩]⟩]]
+  seq [instFile "1.0.0" 1, instDir [extra "LICENSE" 2, sub "pkg" 3 [nf "notation-foo" true 4 (some (sFoo "2.0.0"))]]]
 
 /-- the repaired code refuses it and keeps the installed plugin -/
 example : errs halfReplace = [.ok, .other] ∧ versions halfReplace = [[some (t "1.0.0")], [some (t "1.0.0")]] := by decide
@@ -800,23 +907,46 @@ example : Holds halfReplace (run halfReplace) = true := by decide
 /-- what the defective code did (observed before the repair): "success", the old executable
 gone, the new one never copied. `Holds` is **false** of that observation. -/
 private def halfReplaceObs : Obs :=
-  ⟨[⟨.ok, none, some (t "1.0.0"), [⟨t "foo", [⟨t "notation-foo", 1, true⟩], some (t "1.0.0")⟩], [t "foo"]⟩,
-    ⟨.ok, some (t "1.0.0"), some (t "2.0.0"), [⟨t "foo", [⟨t "LICENSE", 2, false⟩], none⟩], [t "foo"]⟩],
+  ⟨[⟨.ok, none, some (t "1.0.0"), [⟨t "foo", [fo "notation-foo" 1 true], some (t "1.0.0")⟩], [t "foo"]⟩,
+    ⟨.ok, some (t "1.0.0"), some (t "2.0.0"), [⟨t "foo", [fo "LICENSE" 2 false], none⟩], [t "foo"]⟩],
    false, false, none⟩
 example : Holds halfReplace halfReplaceObs = false := by decide
 example : (clauses halfReplace halfReplaceObs).failed =
     ["installed_exactly_toplevel_files_and_new_metadata", "replaced_only_if_higher_or_overwrite",
-     "installs_when_the_rules_allow", "every_installed_plugin_answers"] := by decide
+     "installs_when_the_rules_allow", "no_operation_leaves_a_plugin_that_does_not_answer"] := by decide
+
+/-- a stale directory (interrupted installation: `libfoo-1.so` landed, `notation-foo` did not):
+it is listed, cannot be fetched, counts as absent for Install - which succeeds without
+overwrite and ends with EXACTLY the source's files -, and Uninstall removes it -/
+private def plantFoo (es : List Entry) : Op := ⟨.plant, t "foo", false, false, [], es⟩
+private def stale : Input :=
+  seq [plantFoo [extra "libfoo-1.so" 1, extra "LICENSE" 2], instDir [extra "libfoo-2.so" 3, exeFoo "1.0.0" 4],
+       plantFoo [extra "libfoo-1.so" 5], ⟨.uninstall, t "foo", false, false, [], []⟩]
+example : (run stale).steps.map (fun s => (s.err, s.root, s.listed)) =
+    [(.ok, [⟨t "foo", [fo "LICENSE" 2 false, fo "libfoo-1.so" 1 false], none⟩], [t "foo"]),
+     (.ok, [⟨t "foo", [fo "libfoo-2.so" 3 false, fo "notation-foo" 4 true], some (t "1.0.0")⟩], [t "foo"]),
+     (.ok, [⟨t "foo", [fo "libfoo-1.so" 5 false], none⟩], [t "foo"]),
+     (.ok, [], [])] := by decide
+/-- an installation that leaves the stale file next to the new ones violates exactness -/
+example : Holds (seq [plantFoo [extra "libfoo-1.so" 1], instDir [exeFoo "1.0.0" 4]])
+    ⟨[⟨.ok, none, none, [⟨t "foo", [fo "libfoo-1.so" 1 false], none⟩], [t "foo"]⟩,
+      ⟨.ok, none, some (t "1.0.0"), [⟨t "foo", [fo "libfoo-1.so" 1 false, fo "notation-foo" 4 true], some (t "1.0.0")⟩], [t "foo"]⟩],
+     false, false, none⟩ = false := by decide
+/-- a malfunctioning existing plugin (its executable is there but does not answer) is kept
+without overwrite and replaced with overwrite; deleting only the binary makes it "absent" -/
+example : errs (seq [plantFoo [⟨.file, t "notation-foo", true, false, 1, some ⟨t "foo", t "1.0.0", false⟩, []⟩],
+    instFile "2.0.0" 2, instFile "2.0.0" 3 true, ⟨.rmexe, t "foo", false, false, [], []⟩, instFile "1.0.0" 4]) =
+    [.ok, .other, .ok, .ok, .ok] := by decide
 
 /-- a downgrade that "succeeds" violates the version rule clause -/
 example : Holds (seq [instFile "1.1.0" 1, instFile "1.0.0" 2])
-    ⟨[⟨.ok, none, some (t "1.1.0"), [⟨t "foo", [⟨t "notation-foo", 1, true⟩], some (t "1.1.0")⟩], [t "foo"]⟩,
-      ⟨.ok, some (t "1.1.0"), some (t "1.0.0"), [⟨t "foo", [⟨t "notation-foo", 2, true⟩], some (t "1.0.0")⟩], [t "foo"]⟩],
+    ⟨[⟨.ok, none, some (t "1.1.0"), [⟨t "foo", [fo "notation-foo" 1 true], some (t "1.1.0")⟩], [t "foo"]⟩,
+      ⟨.ok, some (t "1.1.0"), some (t "1.0.0"), [⟨t "foo", [fo "notation-foo" 2 true], some (t "1.0.0")⟩], [t "foo"]⟩],
      false, false, none⟩ = false := by decide
 
 /-- a refusal that nevertheless changed the root violates the no-op clause -/
 example : Holds (seq [instFile "1.1.0" 1, instFile "1.0.0" 2])
-    ⟨[⟨.ok, none, some (t "1.1.0"), [⟨t "foo", [⟨t "notation-foo", 1, true⟩], some (t "1.1.0")⟩], [t "foo"]⟩,
+    ⟨[⟨.ok, none, some (t "1.1.0"), [⟨t "foo", [fo "notation-foo" 1 true], some (t "1.1.0")⟩], [t "foo"]⟩,
       ⟨.downgrade, none, none, [], []⟩], false, false, none⟩ = false := by decide
 
 end examples
